@@ -302,6 +302,10 @@ struct InputReader {
     /// `std::str::from_utf8`. Note that bash's `-n` counts bytes, not Unicode
     /// codepoints, so the fix needs to preserve that behavior.
     buffer: [u8; 1],
+    /// Bytes of a multi-byte UTF-8 character that has not been completed yet.
+    pending: Vec<u8>,
+    /// Whether the input is a terminal (only then are control characters key presses).
+    on_terminal: bool,
     /// Terminal mode guard - kept alive for RAII cleanup on drop.
     /// The guard restores original terminal settings when dropped, even though
     /// we don't access the field directly after construction.
@@ -332,10 +336,13 @@ impl InputReader {
         timeout: Option<Duration>,
         term_mode: Option<brush_core::terminal::AutoModeGuard>,
     ) -> Self {
+        let on_terminal = input.is_terminal();
         Self {
             input,
             deadline: timeout.map(|t| Instant::now() + t),
             buffer: [0; 1],
+            pending: Vec::new(),
+            on_terminal,
             _term_mode: term_mode,
         }
     }
@@ -363,19 +370,46 @@ impl InputReader {
             }
         }
 
-        let n = self.input.read(&mut self.buffer)?;
-        if n == 0 {
-            return Ok(InputEvent::Eof);
+        loop {
+            let n = self.input.read(&mut self.buffer)?;
+            if n == 0 {
+                return Ok(InputEvent::Eof);
+            }
+
+            let byte = self.buffer[0];
+
+            // Map control characters to events; in data that doesn't come from a terminal
+            // they are ordinary characters.
+            if self.on_terminal && self.pending.is_empty() {
+                match byte as char {
+                    CTRL_C => return Ok(InputEvent::CtrlC),
+                    CTRL_D => return Ok(InputEvent::CtrlD),
+                    _ => (),
+                }
+            }
+
+            if byte.is_ascii() && self.pending.is_empty() {
+                return Ok(InputEvent::Char(byte as char));
+            }
+
+            // Decode multi-byte UTF-8 characters incrementally; bytes that don't form one are
+            // replaced.
+            self.pending.push(byte);
+            match std::str::from_utf8(&self.pending) {
+                Ok(decoded) => {
+                    let ch = decoded.chars().next().unwrap_or(char::REPLACEMENT_CHARACTER);
+                    self.pending.clear();
+                    return Ok(InputEvent::Char(ch));
+                }
+                Err(err) if err.error_len().is_none() && self.pending.len() < 4 => {
+                    // Incomplete so far; read on.
+                }
+                Err(_) => {
+                    self.pending.clear();
+                    return Ok(InputEvent::Char(char::REPLACEMENT_CHARACTER));
+                }
+            }
         }
-
-        let ch = self.buffer[0] as char;
-
-        // Map control characters to events.
-        Ok(match ch {
-            CTRL_C => InputEvent::CtrlC,
-            CTRL_D => InputEvent::CtrlD,
-            _ => InputEvent::Char(ch),
-        })
     }
 }
 
@@ -482,8 +516,8 @@ fn read_line_with_reader(
                     return Ok(ReadResult::Line(line));
                 }
 
-                // Ignore non-whitespace control characters.
-                if ch.is_ascii_control() && !ch.is_ascii_whitespace() {
+                // Ignore non-whitespace control characters typed on a terminal.
+                if reader.on_terminal && ch.is_ascii_control() && !ch.is_ascii_whitespace() {
                     continue;
                 }
 
